@@ -228,30 +228,23 @@ def gen_spectrum(rng, n):
 
 def run_spectrum(inp):
     M = G.fm(inp["M"])
-    ev, evec = np.linalg.eig(M.T)
-    out = {"ev_re": np.real(ev).tolist(), "ev_im": np.imag(ev).tolist()}
-    # Minkowski norm of the eigenvector from_reflection will pick (np.argmin of the real parts of the
-    # representative of non-negative trace), after normalize
-    sgn = -1.0 if np.trace(M) < 0 else 1.0
-    v = np.real(evec[:, int(np.argmin(sgn * np.real(ev)))])
-    nv = float(G.mink(v, v))
-    out["vnorm"] = 0.0 if abs(nv) < 1e-300 else nv / abs(nv)
+    out = {}
     try:
         Hp = H.Hyperplane.from_reflection(H.Isometry(M.copy()))
         out["accepted"] = True
+        out["normal"] = np.array(Hp.spacelike_vector, dtype=float).tolist()
         # the documented bare-array input is read like Isometry(array)
         Hq = H.Hyperplane.from_reflection(M.copy())
         out["array_normal"] = np.array(Hq.spacelike_vector, dtype=float).tolist()
-        out["normal"] = np.array(Hp.spacelike_vector, dtype=float).tolist()
     except GeometryError:
         out["accepted"] = False
     return out
 
 
 def lean_spectrum(inp, obs):
-    if "ev_re" not in obs:
-        return []
-    return [{"op": "c15.refl_spectrum", "evals": [Q.qs(x) for x in obs["ev_re"]], "eps": EPS, "vnorm": Q.qs(obs["vnorm"])}]
+    # the model decides on the exact matrix: representative of non-negative trace, normal read off the largest row of M - 1,
+    # comparison with the closed-form reflection in it, spacelike test
+    return [{"op": "c15.refl_accept", "n": inp["dim"], "M": inp["M"], "eps": EPS}]
 
 
 def judge_spectrum(inp, obs, lr):
@@ -265,19 +258,19 @@ def judge_spectrum(inp, obs, lr):
     if obs["accepted"] != isrefl:
         # a parabolic-times-reflection has the spectrum of a reflection; it is not generated here
         return {"expected": "accepted iff reflection", "observed": obs["accepted"], "tags": tags, "property_failure": True}
-    imax = max(abs(x) for x in obs["ev_im"])
-    if imax == 0.0:
-        if lr[0]["ok"]["accept"] != obs["accepted"]:
-            return {"expected": {"model accept": lr[0]["ok"]["accept"]}, "observed": obs["accepted"], "tags": tags}
-    elif imax > 1e-8 and obs["accepted"]:
-        return {"expected": "complex spectrum rejected", "observed": obs, "tags": tags}
+    model = lr[0]["ok"]
+    if model["accept"] != obs["accepted"]:
+        return {"expected": {"model accept": model["accept"]}, "observed": obs["accepted"], "tags": tags}
     if obs["accepted"]:
-        # the recovered normal is the (-1)-eigenvector chosen by argmin, and is fixed up to sign by R
+        # the recovered normal is negated by the reflection, and is projectively the normal the model reads off
         M = G.fm(inp["M"])
         v = np.array(obs["normal"])
         sg = -1.0 if inp["kind"] == "neg_refl" else 1.0
         if np.abs(v @ M + sg * v).max() > 1e-8:
             return {"expected": "normal is a (-1)-eigenvector of the reflection", "observed": v.tolist(), "tags": tags, "property_failure": True}
+        mv = Q.decf(model["normal"])
+        if not G.proj_equal(v, mv, 1e-8):
+            return {"expected": {"projectively the model's normal": mv.tolist()}, "observed": v.tolist(), "tags": tags}
         w = np.array(obs["array_normal"])
         if min(np.abs(w - v).max(), np.abs(w + v).max()) > 1e-8:
             return {"expected": {"same wall from the bare array": v.tolist()}, "observed": w.tolist(),
@@ -444,9 +437,9 @@ def gen_o_reflect(rng, n):
         rho = None
         if rng.random() < 0.25:
             # G12: walls at hyperbolic distance rho from the centre: normal (sinh rho, cosh rho u); the reflection matrix has
-            # entries of size e^(2 rho) / 2.  Up to 4.4 everything must work; from 4.7 on from_reflection's absolute
-            # eigenvalue threshold starts to reject the reflection (known finding, tagged far_wall)
-            rho = rng.uniform(2.0, 4.4) if rng.random() < 0.6 else rng.uniform(4.7, 9.0)
+            # entries of size e^(2 rho) / 2.  (The eigenvalue test of the pinned from_reflection rejected its own reflection
+            # from rho = 4.7 on; repaired.  Beyond rho = 9 reflection_across itself is only accurate to 1e-8 |R|.)
+            rho = rng.uniform(2.0, 4.4) if rng.random() < 0.5 else rng.uniform(4.7, 8.5)
             ds = []
             for _ in range(int(np.prod(shape)) if shape else 1):
                 u = np.array([rng.gauss(0, 1) for _ in range(dim)])
@@ -523,7 +516,7 @@ def run_o_reflect(inp):
     n2 = np.array(H2.spacelike_vector, dtype=float)
     out["rt_shape"] = list(n2.shape) == list(dn.shape)
     if out["rt_shape"]:
-        out["rt_normal"] = float(np.minimum(np.abs(n2 - dn).max(-1), np.abs(n2 + dn).max(-1)).max())
+        out["rt_normal"] = float((np.minimum(np.abs(n2 - dn).max(-1), np.abs(n2 + dn).max(-1)) / np.maximum(1.0, np.abs(dn).max(-1))).max())
         ib2 = np.array(H2.ideal_basis, dtype=float)
         nb2 = np.maximum(1.0, np.einsum("...ki,...ki->...k", ib2, ib2))
         out["rt_ideal"] = float(max((np.abs(np.einsum("...ki,ij,...kj->...k", ib2, Jm, ib2)) / nb2).max(),
@@ -533,8 +526,9 @@ def run_o_reflect(inp):
         if dim == 2:
             g = H.Geodesic.from_reflection(H.Isometry(R.copy()))
             e = np.array(g.endpoints, dtype=float)
-            out["geo"] = float(max(np.abs(np.einsum("...ki,ij,...kj->...k", e, Jm, e)).max(),
-                                   np.abs(np.einsum("...ki,ij,...j->...k", e, Jm, dn)).max()))
+            ne = np.maximum(1.0, np.einsum("...ki,...ki->...k", e, e))
+            out["geo"] = float(max((np.abs(np.einsum("...ki,ij,...kj->...k", e, Jm, e)) / ne).max(),
+                                   (np.abs(np.einsum("...ki,ij,...j->...k", e, Jm, dn)) / np.sqrt(ne) / np.linalg.norm(dn, axis=-1)[..., None]).max()))
     return out
 
 
@@ -644,12 +638,20 @@ def run_o_nonrefl(inp):
     except GeometryError:
         acc_arr = False
     acc_g = None
+    geo_ends = geo_ends_arr = None
+    acc_g_arr = None
     if inp["dim"] == 2:
         try:
-            H.Geodesic.from_reflection(H.Isometry(M.copy()))
+            geo_ends = np.array(H.Geodesic.from_reflection(H.Isometry(M.copy())).endpoints, dtype=float).tolist()
             acc_g = True
         except GeometryError:
             acc_g = False
+        try:
+            # G13: the twin entry point with the other packaging of the argument (a bare array, read like Isometry(array))
+            geo_ends_arr = np.array(H.Geodesic.from_reflection(M.copy()).endpoints, dtype=float).tolist()
+            acc_g_arr = True
+        except GeometryError:
+            acc_g_arr = False
     wrongdim = None
     if inp["dim"] != 2:
         try:
@@ -658,7 +660,8 @@ def run_o_nonrefl(inp):
         except GeometryError:
             wrongdim = "GeometryError"
     return {"accepted": acc, "accepted_array": acc_arr, "accepted_geodesic": acc_g, "wrongdim": wrongdim,
-            "normal": normal, "array_normal": arr_normal, "wall": g[1].tolist()}
+            "normal": normal, "array_normal": arr_normal, "wall": g[1].tolist(),
+            "accepted_geodesic_array": acc_g_arr, "geo_ends": geo_ends, "geo_ends_array": geo_ends_arr}
 
 
 def judge_o_nonrefl(inp, obs, lr):
@@ -670,6 +673,17 @@ def judge_o_nonrefl(inp, obs, lr):
         return {"expected": "reflections accepted, non-reflections rejected with GeometryError", "observed": obs, "tags": tags}
     if obs["accepted_array"] != want:
         return {"expected": "the same decision for the bare array", "observed": obs, "tags": dict(tags, input="ndarray")}
+    if obs.get("accepted_geodesic_array") is not None and obs["accepted_geodesic_array"] != want:
+        return {"expected": "Geodesic.from_reflection: the same decision for the bare array", "observed": obs, "tags": dict(tags, input="ndarray", entry="Geodesic.from_reflection")}
+    if want and obs.get("geo_ends") is not None:
+        dw = np.array(obs["wall"])
+        Jm = G.J(inp["dim"])
+        for key in ("geo_ends", "geo_ends_array"):
+            for e in np.array(obs[key]):
+                e = e / np.linalg.norm(e)
+                if abs(e @ Jm @ e) > 1e-6 or abs(e @ Jm @ dw) / np.linalg.norm(dw) > 1e-6 * (1 + np.abs(np.array(inp["g"])).max() ** 2):
+                    return {"expected": "Geodesic.from_reflection: ideal endpoints of the wall of the reflection (lightlike, orthogonal to its normal)",
+                            "observed": obs[key], "tags": dict(tags, what=key, entry="Geodesic.from_reflection")}
     if want:
         d = np.array(obs["wall"])       # the reflection is g^-1 L g with L the reflection in e1: its wall is (e1 g)^perp
         d = d / np.linalg.norm(d)
@@ -1275,7 +1289,7 @@ CLAUSES = [
            what="Hyperplane(d).proj_data vs Lean hyperplaneData on the implementation's own spacelike_to matrix (sent exactly); spacelike_to contract residual"),
     Clause("spectrum_corr", "corr", gen_spectrum, run_spectrum, judge_spectrum, lean=lean_spectrum, site="hyperbolic.Hyperplane.from_reflection",
            budget={"quick": 150, "thorough": 3000},
-           what="from_reflection accept/reject on exact conjugates (reflection, rotation, loxodromic, parabolic, glide reflection, two reflections, identity) vs Lean isReflSpectrum on eig's output"),
+           what="from_reflection accept/reject and the recovered normal on exact conjugates (reflection and -reflection, rotation, loxodromic, parabolic, glide reflection, two reflections, identity, point reflection) vs Lean fromReflectionAccepts / reflNormal evaluated on the exact matrix"),
     Clause("fixorder_corr", "corr", gen_fix, run_fix, judge_fix, lean=lean_fix, site="hyperbolic.Isometry.fixed_point",
            budget={"quick": 150, "thorough": 3000},
            what="fixed_point / fixed_point_pair / axis (public interface only) are projectively the eigen-directions Lean fixOrder puts first on the harness's own spectral data; key-level comparison where the choice is not a single point"),
